@@ -60,7 +60,7 @@ impl ExprContext {
 #[verifier::external_body] pub fn __fmt_incomplete_expr() -> String { unimplemented!() }
 impl Parser {
     #[verifier::external_body] fn visit_cor(&mut self, node: &ConditionalOrContextAll) -> (r: IdedExpr) ensures r.expr == visit_cor_spec(*node) { unimplemented!() }
-    #[verifier::external_body] fn visit_expr_node(&mut self, node: &ExprContextAll) -> (r: IdedExpr) ensures r.expr == visit_expr_spec(*node) { unimplemented!() }
+    #[verifier::external_body] fn visit_expr_node(&mut self, node: &ExprContextAll) -> (r: IdedExpr) ensures r.expr == visit_expr_spec(*node), final(self).errors@.len() >= old(self).errors@.len() { unimplemented!() }
 }
 // ---- || and && chains ----
 #[verifier::external_body] pub struct ConditionalAndContextAll { x: u8 }
